@@ -44,7 +44,9 @@ def build(program: dict) -> dict:
     spec = copy.deepcopy(TREES[program["tree"]])
     for p, nd in paths(spec):
         for phase in ("prepare", "start"):
-            steps: list = [("td", f"td:{p}:{phase}"), ("gate", "g"), ("tdn" if phase == "start" else "td", f"td2:{p}:{phase}")]
+            # (the second callback of a prepare() returns a non-coroutine awaitable, the second one of a start() registers one more
+            # callback while the teardown is running)
+            steps: list = [("td", f"td:{p}:{phase}"), ("gate", "g"), ("tdn" if phase == "start" else "tdaw", f"td2:{p}:{phase}")]
             nd[phase] = steps
     end = program["end"]
     root = paths(spec)[0][1]
@@ -72,7 +74,8 @@ def build(program: dict) -> dict:
                 nd["start"].insert(1, ("svc", "crasher", [("gate", "c"), ("crash",)]))
     if program.get("svc"):
         last = paths(spec)[-1][1]
-        last["prepare"].insert(1, ("svc", "bg", ([("owntd",)] if program["svc"] == "owntd" else []) + [("forever",)]))
+        body = {"owntd": [("owntd",), ("forever",)], "coc": [("owntd",), ("crash-on-cancel",)]}.get(program["svc"], [("forever",)])
+        last["prepare"].insert(1, ("svc", "bg", body))
     if program["cli"]:
         if end["kind"] == "run-return":
             spec["run"] = [("td", "td:run"), ("gate", "r"), ("return", RUN_VALUES[end["value"]])]
@@ -139,6 +142,11 @@ class C15(E1Check):
                     progs.append({"tree": tree, "cli": cli, "svc": svc, "end": {"kind": "timeout"}})
                     for sig in ("SIGINT", "SIGTERM"):
                         progs.append({"tree": tree, "cli": cli, "svc": svc, "end": {"kind": "signal", "sig": sig}})
+                    if svc and cli:
+                        # a background service (with an asynchronous teardown of its own context) that raises when it is stopped at shutdown:
+                        # an exception escaping a service task after start-up propagates
+                        for vi in (0, 3):
+                            progs.append({"tree": tree, "cli": True, "svc": "coc", "end": {"kind": "run-return", "value": vi}})
                     if svc:
                         # the background service has an asynchronous teardown callback on its own context
                         progs.append({"tree": tree, "cli": cli, "svc": "owntd", "end": {"kind": "signal", "sig": "SIGTERM"}})
@@ -316,6 +324,8 @@ class C15(E1Check):
                 exp = ("crash",)
             else:
                 exp = None
+        if program.get("svc") == "coc" and k == "run-return" and any(ev[0] == "svc-crash" for ev in tr):
+            exp = ("crash",)
         if exp == ("crash",):
             def leaves(e: BaseException) -> list:
                 if isinstance(e, BaseExceptionGroup):
